@@ -294,6 +294,11 @@ class Blockwise(ArrayExpr):
                     arg = token_or_identity(arg)
                 args_token.extend([arg, ind])
 
+            # A user-provided name is part of the node's identity: parents name
+            # themselves by tokenizing their operands, so two nodes that differ
+            # only in name must not share a token.
+            name = self.operand("name") if "name" in self._parameters else None
+
             self._determ_token = _tokenize_deterministic(
                 self.func,
                 self.out_ind,
@@ -302,6 +307,7 @@ class Blockwise(ArrayExpr):
                 self.new_axes,
                 self.align_arrays,
                 self.concatenate,
+                name,
                 *args_token,
                 **kwargs_token,
             )
